@@ -62,6 +62,9 @@ def s_vtypedef(n, t, length, length2=None):
     return d
 def s_vlat(n, tn): return {"k": "vlat", "n": n, "tn": tn}
 def incdec(l, dec=False, post=False): return {"k": "incdec", "l": l, "dec": dec, "post": post}
+def sc_e(op, a, b): return {"k": "sc", "op": op, "a": a, "b": b}
+def scond_e(c, a, b): return {"k": "scond", "c": c, "a": a, "b": b}
+def scomma_e(a, b): return {"k": "scomma", "a": a, "b": b}
 def asg_e(op, l, r): return {"k": "asg", "op": op, "l": l, "r": r}
 
 
@@ -196,6 +199,12 @@ def rexpr(e, structs):
         return "(%s%s)" % (r(e["l"]), op) if e["post"] else "(%s%s)" % (op, r(e["l"]))
     if k == "asg":
         return "(%s %s %s)" % (r(e["l"]), e["op"], r(e["r"]))
+    if k == "sc":
+        return "(%s %s %s)" % (r(e["a"]), e["op"], r(e["b"]))
+    if k == "scond":
+        return "(%s ? %s : %s)" % (r(e["c"]), r(e["a"]), r(e["b"]))
+    if k == "scomma":
+        return "(%s, %s)" % (r(e["a"]), r(e["b"]))
     raise ValueError(k)
 
 
